@@ -57,23 +57,68 @@ def times_of(cs, lang=None):
     return out
 
 
+def make_reader(fmt, opts=None):
+    if fmt == "srt":
+        return SRTReader()
+    if fmt == "vtt":
+        strict, shift = opts
+        return WebVTTReader(ignore_timing_errors=not strict, time_shift_milliseconds=shift)
+    if fmt == "mdvd":
+        return MicroDVDReader()
+    if fmt in ("dfxp", "dfxp-tree"):
+        return DFXPReader()
+    if fmt in ("sami", "sami-tree"):
+        return SAMIReader()
+    raise ValueError(fmt)
+
+
+def extract(fmt, cs, lang=None):
+    if fmt == "dfxp":
+        return times_of(cs, lang)
+    if fmt == "sami":
+        return {l: times_of(cs, l) for l in cs.get_languages()}
+    if fmt in ("dfxp-tree", "sami-tree"):
+        return [[l, times_of(cs, l)] for l in cs.get_languages()]
+    return times_of(cs)
+
+
 def read_with(fmt, doc, opts=None, lang=None):
-    """run the real reader; Ok(list of [start, end]) or Err(code) or ('non-integer', repr)"""
-    def go():
-        if fmt == "srt":
-            return times_of(SRTReader().read(doc))
-        if fmt == "vtt":
-            strict, shift = opts
-            return times_of(WebVTTReader(ignore_timing_errors=not strict, time_shift_milliseconds=shift).read(doc))
-        if fmt == "mdvd":
-            return times_of(MicroDVDReader().read(doc))
-        if fmt == "dfxp":
-            return times_of(DFXPReader().read(doc), lang)
-        if fmt == "sami":
-            cs = SAMIReader().read(doc)
-            return {l: times_of(cs, l) for l in cs.get_languages()}
-        raise ValueError(fmt)
-    return impl.call(go)
+    """run the real reader (a fresh object); Ok(list of [start, end]) or Err(code) or ('non-integer', repr)"""
+    return impl.call(lambda: extract(fmt, make_reader(fmt, opts).read(doc), lang))
+
+
+# history: one long-lived reader object per format (and per option set) reads every generated document after having
+# read the others; C01's instants must not depend on what a reader object has read before
+REUSED = {}
+
+
+def read_reused(fmt, doc, opts=None, lang=None):
+    """(observation of the long-lived reader, the last documents it read before)"""
+    key = (fmt, tuple(opts) if opts else None)
+    if key not in REUSED:
+        REUSED[key] = [make_reader(fmt, opts), []]
+    reader, hist = REUSED[key]
+    prev = list(hist)
+    r = impl.call(lambda: extract(fmt, reader.read(doc), lang))
+    hist.append(doc)
+    del hist[:-12]
+    return r, prev
+
+
+def check_reuse(acc, fmt, rec, fresh, doc, opts=None, lang=None):
+    """the long-lived reader must return what the fresh reader returns (value or exception class)"""
+    reused, prev = read_reused(fmt, doc, opts, lang)
+    d = acc.res["distribution"]
+    d["reads_with_a_reused_reader_object"] = d.get("reads_with_a_reused_reader_object", 0) + 1
+    same_obs = (isinstance(fresh, Ok) and isinstance(reused, Ok) and fresh.v == reused.v) or \
+               (isinstance(fresh, Err) and isinstance(reused, Err) and fresh.code == reused.code)
+    if not same_obs:
+        v = dict(rec)
+        v.update({"kind": fmt.split("-")[0] + "-reused-reader", "format": fmt, "replay": "reuse", "history": prev,
+                  "document": doc, "opts": plain(opts), "lang": lang,
+                  "what": ("a %s reader object that had read other documents before returned %s; a fresh reader returns %s"
+                           % (fmt, show(reused), show(fresh)))[:500]})
+        acc.res["violations"].append(v)
 
 
 def model_times(m):
@@ -193,6 +238,7 @@ def stream_docs(ctx, acc, fmt, n, gen, code, args_of, opts_of, nontriv):
     for d, o in zip(docs, outs):
         text, model, expected, dom = o[0], model_times(o[1]), o[2], all(x == 1 for x in o[3:])
         obs = read_with(fmt, text, opts_of(d))
+        check_reuse(acc, fmt, {"input": plain(d)}, obs, text, opts_of(d))
         if not dom and fmt == "vtt" and o[3] == 1 and not d[0]:
             dom = True          # unsorted cues are inside the domain of the non-strict reader
         if fmt == "vtt" and o[3] == 1 and o[4] != 1 and d[0]:
@@ -205,6 +251,11 @@ def stream_docs(ctx, acc, fmt, n, gen, code, args_of, opts_of, nontriv):
             continue
         rec = {"input": plain(d), "document": text, "opts": plain(opts_of(d))}
         acc.add(fmt, rec, expected, obs, model, dom)
+        if dom and fmt == "mdvd":
+            dd = acc.res["distribution"]
+            dd["mdvd_cues_inside_one_frame"] = dd.get("mdvd_cues_inside_one_frame", 0) + sum(1 for c in d[2] if c[1] == c[3])
+            dd["mdvd_cues_inside_one_frame_with_numeric_text"] = dd.get("mdvd_cues_inside_one_frame_with_numeric_text", 0) \
+                + mdvd_same_frame_numeric(d)
         if dom:
             acc.res["nontrivial"] |= {(fmt,) + tuple(k) for k in nontriv(d)}
             if ctx.rng.random() < 0.3:
@@ -236,6 +287,10 @@ def same(obs, model):
            (isinstance(obs, Err) and isinstance(model, Err) and obs.code == model.code)
 
 
+def mdvd_same_frame_numeric(d):
+    return sum(1 for c in d[2] if c[1] == c[3] and any(l.replace(".", "").isdigit() for l in c[4]))
+
+
 def mdvd_nontriv(d):
     fps = None if d[1] is None else (d[1].v[1], tuple(d[1].v[2]))
     return {(fps, c[1], c[3]) for c in d[2] if c[1] or c[3]}
@@ -253,6 +308,7 @@ def stream_dfxp(ctx, acc, n):
         # a second language division with its own cues checks that divisions are kept apart
         doc = tg.dfxp_doc([("en", rows), ("fr", [("1s", "2s", None, "autre")])])
         obs = read_with("dfxp", doc, lang="en")
+        check_reuse(acc, "dfxp", {"input": plain(ps)}, obs, doc, None, "en")
         rec = {"input": plain(ps), "document": doc, "opts": None}
         acc.add("dfxp", rec, expected, obs, model, dom)
         if dom:
@@ -275,6 +331,7 @@ def stream_sami(ctx, acc, n):
         starts = ["0" * pad + str(ms) for (pad, ms, _) in syncs]
         doc = tg.sami_doc(nl, syncs, starts)
         r = read_with("sami", doc)
+        check_reuse(acc, "sami", {"input": plain([nl, [[p, ms, sorted(pr.items())] for (p, ms, pr) in syncs]])}, r, doc)
         for li in range(nl):
             o = next(outs)
             ps = tg.sami_lang_ps(syncs, li)
@@ -298,6 +355,121 @@ def stream_sami(ctx, acc, n):
     if cases:
         acc.res["samples"].append({"format": "sami", "input": plain(cases[0][1])})
     acc.flush()
+
+
+# ---- whole DFXP / SAMI documents as abstract trees (requests 114 / 115) --------------------------------
+EXTRA_ATTRS = [("region", "r1"), ("style", "s1"), ("xml:id", "p%d"), ("tts:textalign", "center"), ("role", "x")]
+BLANK_ATTRS = [[], [("begin", "junk")], [("begin", "1s")], [("end", "2s")], [("begin", "5s"), ("end", "1s")], [("dur", "x")]]
+
+
+def gen_dfxp_tree(rng):
+    tt = rng.choice([None, None, "en", "fr", "de-AT"])
+    langs = rng.sample([None, "en-US", "es", "pt-BR", "zh"], rng.choice([1, 1, 2, 3]))
+    divs = []
+    k = 0
+    for l in langs:
+        ps = []
+        for _ in range(rng.choice([0, 1, 2, 3, 4])):
+            k += 1
+            if rng.random() < 0.3:
+                ps.append([1, [list(a) for a in rng.choice(BLANK_ATTRS)]])
+            else:
+                ex = [[n, v % k if "%d" in v else v] for (n, v) in rng.sample(EXTRA_ATTRS, rng.choice([0, 0, 1, 2]))]
+                ps.append([0, ex, [tg.gen_texpr(rng), rng.random() < 0.3, tg.gen_texpr(rng)]])
+        divs.append([None if l is None else Some(l), ps])
+    return [None if tt is None else Some(tt), divs]
+
+
+def render_dfxp_tree(tt, rendered):
+    out = ['<?xml version="1.0" encoding="utf-8"?>\n<tt%s xmlns="http://www.w3.org/ns/ttml" '
+           'xmlns:tts="http://www.w3.org/ns/ttml#styling"><head></head><body>' % ("" if tt is None else ' xml:lang="%s"' % tt.v)]
+    n = 0
+    for (lang, ps) in rendered:
+        out.append("<div%s>" % ("" if not lang else ' xml:lang="%s"' % lang[0]))
+        for (attrs, text) in ps:
+            n += 1
+            a = "".join(' %s="%s"' % (nm, v) for (nm, v) in attrs)
+            out.append("<p%s>%s</p>" % (a, ("words %d" % n) if text == 1 else "  "))
+        out.append("</div>")
+    out.append("</body></tt>")
+    return "\n".join(out)
+
+
+def dict_obs(cs):
+    return [[l, times_of(cs, l)] for l in cs.get_languages()]
+
+
+def compare_dict(acc, fmt, rec, expected, obs, model, dom):
+    """expected / model: Ok([[lang, pairs], ..]) / Err ; obs: Ok([[lang, times]..]) / Err.  The oracle is evaluated per
+    language (request 105); the order of the languages belongs to C14: a difference there is recorded, not failed."""
+    res = acc.res
+    res["evaluations"] += 1
+    d = res["distribution"]
+    d[fmt + "_cases"] = d.get(fmt + "_cases", 0) + 1
+    if not dom:
+        d[fmt + "_out_of_domain_dropped"] = d.get(fmt + "_out_of_domain_dropped", 0) + 1
+        return
+    if isinstance(expected, Err):
+        ok = isinstance(obs, Err) and obs.code == expected.code
+    elif isinstance(obs, Err) or any(isinstance(t, tuple) for (_, t) in obs.v):
+        ok = False
+    else:
+        od = {l: t for (l, t) in obs.v}
+        ok = set(od) == {l for (l, _) in expected.v} and all(
+            oracle1(105, [caps, Ok(od[l])]) == 1 for (l, caps) in expected.v)
+        if ok and [l for (l, _) in obs.v] != [l for (l, _) in expected.v]:
+            differs(res, {"format": fmt, "what": "language order", "impl": [l for (l, _) in obs.v],
+                          "model": [l for (l, _) in expected.v]})
+    if not ok:
+        v = dict(rec)
+        v.update({"kind": fmt + "-times", "format": fmt, "replay": "tree", "expected": show(expected),
+                  "what": ("%s reader returned %s for a document denoting %s" % (fmt, show(obs), show(expected)))[:500]})
+        res["violations"].append(v)
+    elif not same(obs, model):
+        if isinstance(obs, Ok) and isinstance(model, Ok) and sorted(obs.v) == sorted(model.v):
+            pass
+        else:
+            res["disagreements"].append({"format": fmt, "input": rec, "impl": show(obs), "model": show(model)})
+
+
+def stream_dfxp_tree(ctx, acc, n):
+    cases = [gen_dfxp_tree(ctx.rng) for _ in range(n)]
+    outs = oracle_batch([(114, c) for c in cases])
+    for c, o in zip(cases, outs):
+        doc = render_dfxp_tree(c[0], o[0])
+        model, expected, dom = r_result(o[1]), r_result(o[2]), o[3] == 1
+        obs = impl.call(lambda: dict_obs(DFXPReader().read(doc)))
+        check_reuse(acc, "dfxp-tree", {"input": plain(c)}, obs, doc)
+        rec = {"input": plain(c), "document": doc, "opts": None}
+        compare_dict(acc, "dfxp-tree", rec, expected, obs, model, dom)
+        if dom:
+            acc.res["nontrivial"].add(("dfxp-tree", repr(plain(c))))
+    if cases:
+        acc.res["samples"].append({"format": "dfxp-tree", "input": plain(cases[0])})
+
+
+def stream_sami_tree(ctx, acc, n):
+    cases = [tg.gen_sami(ctx.rng) for _ in range(n)]
+    reqs = []
+    for (nl, syncs) in cases:
+        order = []
+        for (pad, ms, present) in syncs:
+            for li in sorted(present):
+                if tg.SAMI_LANGS[li][1] not in order:
+                    order.append(tg.SAMI_LANGS[li][1])
+        body = [[pad, ms, [[tg.SAMI_LANGS[li][1], txt] for li, txt in sorted(present.items())]] for (pad, ms, present) in syncs]
+        reqs.append((115, [order, body]))
+    outs = oracle_batch(reqs)
+    for (nl, syncs), o in zip(cases, outs):
+        starts = ["0" * pad + str(ms) for (pad, ms, _) in syncs]
+        doc = tg.sami_doc(nl, syncs, starts)
+        model, expected, dom = r_result(o[0]), r_result(o[1]), o[2] == 1
+        obs = impl.call(lambda: dict_obs(SAMIReader().read(doc)))
+        check_reuse(acc, "sami-tree", {"input": None}, obs, doc)
+        rec = {"input": plain([nl, [[p, ms, sorted(pr.items())] for (p, ms, pr) in syncs]]), "document": doc, "opts": None}
+        compare_dict(acc, "sami-tree", rec, expected, obs, model, dom)
+        if dom and nl > 1:
+            acc.res["nontrivial"].add(("sami-tree", repr(syncs)))
 
 
 # ---- malformed / raw stream: model == implementation incl. the exception class ------------------
@@ -426,6 +598,7 @@ def stream_raw(ctx, acc, n):
 
 
 def run(ctx):
+    REUSED.clear()
     acc = Acc()
     res = acc.res
     q = ctx.n
@@ -435,10 +608,12 @@ def run(ctx):
     stream_docs(ctx, acc, "mdvd", q(1000, 20000), tg.gen_mdvd_doc, 102, lambda d: d, lambda d: None, mdvd_nontriv)
     stream_dfxp(ctx, acc, q(700, 10000))
     stream_sami(ctx, acc, q(300, 5000))
+    stream_dfxp_tree(ctx, acc, q(400, 6000))
+    stream_sami_tree(ctx, acc, q(250, 4000))
     stream_raw(ctx, acc, q(150, 2500))
     if ctx.thorough:
         sweep(ctx, acc)
-    res["streams"] = 5
+    res["streams"] = 7
     res["distribution"].setdefault("model_differences_outside_the_property", 0)
     res["notes"].append("malformed/raw stream and strict-unsorted WebVTT: model vs implementation compared incl. exception "
                         "class; %d differences (recorded, not failing: the property is silent there); first: %s" % (
@@ -459,7 +634,8 @@ def run(ctx):
                     "DFXP begin+dur, WebVTT shift", "SAMI back-filling over all strictly increasing sync lists, 4 s tail",
                     "document level of SRT, WebVTT and MicroDVD at string level: one caption per non-empty cue, in order "
                     "(C01_srt_doc_exact, C01_vtt_doc_exact, C01_mdvd_doc_exact, C01_vtt_validation_transparent)"],
-        "correspondence_only": ["DFXP/SAMI text -> tree (BeautifulSoup / html.parser / lxml)",
+        "correspondence_only": ["DFXP/SAMI text -> abstract tree (BeautifulSoup / html.parser / lxml); from the tree on it is a "
+                                "theorem (C01_dfxp_tree_exact, C01_sami_tree_exact)",
                                 "SAMI int(float(start)) on digit strings below 2^53",
                                 "Python int()/isdigit()/\\d outside ASCII digit strings (never generated)"]}
     res["trusted_extra"] = ["C01: Python int()/isdigit()/\\d modelled on ASCII digit strings only"]
@@ -509,6 +685,18 @@ def sweep(ctx, acc):
 
 def replay(ctx, rec):
     fmt = rec["format"]
+    if rec.get("replay") == "reuse":
+        opts = tuple(rec["opts"]) if rec.get("opts") else None
+        reader = make_reader(fmt, opts)
+        for h in rec.get("history", []):
+            impl.call(lambda: reader.read(h))
+        reused = impl.call(lambda: extract(fmt, reader.read(rec["document"]), rec.get("lang")))
+        fresh = read_with(fmt, rec["document"], opts, rec.get("lang"))
+        return show(reused) != show(fresh), [show(reused), show(fresh)]
+    if rec.get("replay") == "tree":
+        reader = DFXPReader if fmt == "dfxp-tree" else SAMIReader
+        obs = impl.call(lambda: dict_obs(reader().read(rec["document"])))
+        return show(obs) != rec["expected"], show(obs)
     opts = rec.get("opts")
     if fmt == "vtt":
         opts = tuple(opts)
